@@ -2,10 +2,13 @@
 pub mod c03;
 pub mod c07;
 pub mod c12;
+pub mod c13;
 pub mod c14;
 pub mod c15;
 pub mod c16;
 pub mod c17;
+#[cfg(feature = "full")]
+pub mod c18;
 pub mod c20;
 pub mod gen_error_variants;
 
